@@ -3,7 +3,7 @@
 tier=${1:-quick}; shift
 props=$(jq -r '.checks[].property_id' /verif/MANIFEST.json)
 [ -n "$PROPS" ] && props="$PROPS"
-mkdir -p /verif/work/runall
+mkdir -p /verif/work/runall; rm -f /verif/work/runall/*.out
 for p in $props; do
   ( timeout 3000 /verif/bin/govc check --property $p --tier $tier "$@" > /verif/work/runall/$p.out 2>&1; echo "exit=$? $(grep -E "^$p (quick|thorough):" /verif/work/runall/$p.out | cut -c1-140)" ) &
   while [ $(jobs -r | wc -l) -ge 4 ]; do sleep 0.5; done
